@@ -1,8 +1,6 @@
 package checks
 
 import (
-	"runtime/debug"
-	"sort"
 	"bytes"
 	"compress/flate"
 	"compress/zlib"
@@ -18,6 +16,8 @@ import (
 	"net/url"
 	"os"
 	"runtime"
+	"runtime/debug"
+	"sort"
 	"strings"
 	"time"
 
